@@ -29,6 +29,9 @@ type SourceMaps struct {
 	Entries map[int][]LexEntry `json:"entries,omitempty"` // node index -> entries, in order
 	Files   []FileLoc          `json:"files,omitempty"`   // additional locations
 	NoBase  bool               `json:"no_base,omitempty"` // omit the BaseUnitSourceInformation node (the uri is then unspecified; only differential checks use this)
+	// Conflicts adds a second SourceMap node with a different range for every node-level entry and a second
+	// BaseUnitSourceInformation node with another root: which one wins is unspecified, but it must not vary from run to run
+	Conflicts bool `json:"conflicts,omitempty"`
 }
 
 // FileLoc assigns nodes to another source file.
@@ -96,6 +99,25 @@ func (s *SourceMaps) Attach(g *Graph) *Graph {
 			ln.AddVal(SM+"value", LV(S(e.Range.String())))
 			out.Nodes = append(out.Nodes, ln)
 			out.Nodes[smi].AddVal(SM+"lexical", NV(li))
+		}
+	}
+	if s.Conflicts {
+		for i := range g.Nodes {
+			if r, ok := s.NodeRange(i); ok {
+				smi := len(out.Nodes)
+				out.Nodes = append(out.Nodes, &Node{ID: g.Nodes[i].ID + "/source-map-b", Types: []string{SM + "SourceMap"}, Props: map[string][]Val{}})
+				li := len(out.Nodes)
+				ln := &Node{ID: g.Nodes[i].ID + "/source-map-b/lexical/element_0", Props: map[string][]Val{}}
+				ln.AddVal(SM+"element", LV(S(g.Nodes[i].ID)))
+				ln.AddVal(SM+"value", LV(S(Range{r.L1 + 100, r.C1 + 1, r.L2 + 100, r.C2 + 1}.String())))
+				out.Nodes = append(out.Nodes, ln)
+				out.Nodes[smi].AddVal(SM+"lexical", NV(li))
+			}
+		}
+		if !s.NoBase {
+			bn := &Node{ID: "amf://id/BaseUnitSourceInformation-b", Types: []string{DOC + "BaseUnitSourceInformation"}, Props: map[string][]Val{}}
+			bn.AddVal(DOC+"rootLocation", LV(S(s.Root+".other")))
+			out.Nodes = append(out.Nodes, bn)
 		}
 	}
 	if s.NoBase {
